@@ -68,14 +68,15 @@ def run(ctx, replay=None):
         results["x509/" + what] = [c["what"] for c in failed[rows[0]["id"]]][:3]
     # ---- (iii) vacuity: every action of the bounded Repo model fires
     d = ctx.spec_dir()
-    name = "MCRepo_cov.cfg"
-    with open(os.path.join(d, name), "w") as f:
-        f.write('CONSTANTS\n  Ents = {"r", "s", "l"}\n  Parent <- ChainParent\n  AltParents <- ChainAlt\n  Contents = {0, 1}\n  FlagSets <- ExpiryFlagSets\n  EnvActs <- EverythingEnv\n'
-                '  FaultActs <- AllFault\n  UsesProfile <- LeafProfile\n  MaxEnv = 1\nINIT Init\nNEXT Next\nINVARIANTS TypeInv ConvergedAfterDefault Idempotent\nCHECK_DEADLOCK FALSE\n')
-    rc, out = ctx.tlc("MCRepo", cfg=name, workers=8, extra=["-coverage", "1"], timeout=1200)
     acts = {}
-    for m in re.finditer(r"<(\w+) line \d+, col \d+ to line \d+, col \d+ of module Repo(?: \([\d ]+\))?>: (\d+):(\d+)", out):
-        acts[m.group(1)] = max(acts.get(m.group(1), 0), int(m.group(3)))
+    # (AddConfig needs a RemoveConfig before it: a second, small configuration with two environment steps)
+    for name, envs, maxenv in (("MCRepo_cov.cfg", "EverythingEnv", 1), ("MCRepo_cov2.cfg", "ConfigOnlyEnv", 2)):
+        with open(os.path.join(d, name), "w") as f:
+            f.write('CONSTANTS\n  Ents = {"r", "s", "l"}\n  Parent <- ChainParent\n  AltParents <- ChainAlt\n  Contents = {0, 1}\n  FlagSets <- ExpiryFlagSets\n  EnvActs <- %s\n'
+                    '  FaultActs <- AllFault\n  UsesProfile <- LeafProfile\n  MaxEnv = %d\nINIT Init\nNEXT Next\nINVARIANTS TypeInv ConvergedAfterDefault Idempotent\nCHECK_DEADLOCK FALSE\n' % (envs, maxenv))
+        rc, out = ctx.tlc("MCRepo", cfg=name, workers=8, extra=["-coverage", "1"], timeout=1200)
+        for m in re.finditer(r"<(\w+) line \d+, col \d+ to line \d+, col \d+ of module Repo(?: \([\d ]+\))?>: (\d+):(\d+)", out):
+            acts[m.group(1)] = max(acts.get(m.group(1), 0), int(m.group(3)))
     acts["WriteOKAct"] = acts.get("Step", 0)      # WriteOKAct is the bare Step([name |-> "WriteOK"]) disjunct
     expected = ["EditAct", "TouchAct", "DeleteAct", "TruncateAct", "StripKeyAct", "ReplaceAct", "MakeCsrAct", "EditProfileAct", "ExpireAct", "SetIssuerAct", "RemoveConfigAct", "AddConfigAct", "StartRunAct", "WriteOKAct", "SignFailAct",
                 "WriteErrAct", "WriteTornAct", "DieAct"]
